@@ -798,10 +798,10 @@ fn leak_check(rep: &mut Report, marker: &str, resp: &Resp, what: &str, ctx: &Val
     }
 }
 
-fn live_client(rep: &mut Report, addr: std::net::SocketAddr, seed: u64, shard: u64, cases: u64) -> Vec<Seen> {
+fn live_client(rep: &mut Report, addr: std::net::SocketAddr, seed: u64, shard: u64, first: u64, cases: u64) -> Vec<Seen> {
     let mut out = vec![];
     let mut conn: Option<Conn> = None;
-    for c in 0..cases {
+    for c in first..first + cases {
         let mut sel = Rng::derive(seed, "c13-live-select", shard, c);
         let mut rng = Rng::derive(seed, "c13-live", shard, c);
         let ctx = json!({"seed": seed, "shard": shard, "case": c, "engine": "c13-live"});
@@ -968,73 +968,64 @@ fn live_client(rep: &mut Report, addr: std::net::SocketAddr, seed: u64, shard: u
     out
 }
 
+/// request ids as compact keys (uuid -> u128) so that 10^6+ ids fit easily
+fn id_key(id: &str) -> Result<u128, String> {
+    let h: String = id.chars().filter(|c| *c != '-').collect();
+    if h.len() == 32 {
+        u128::from_str_radix(&h, 16).map_err(|_| id.to_string())
+    } else {
+        Err(id.to_string())
+    }
+}
+
 pub fn run_live(seed: u64, threads: usize, cases_per_thread: u64) -> Report {
-    let mut rep = Report::new("C13", "E2-live-request-ids-and-errors", RULE_LIVE);
-    let api = match build_api() {
-        Ok(a) => a,
-        Err(e) => {
-            rep.inconclusive(&format!("harness API not accepted: {e}"));
-            return rep;
-        }
+    let plan = crate::live::Plan {
+        property: "C13",
+        engine: "E2-live-request-ids-and-errors",
+        rule: RULE_LIVE,
+        seed,
+        threads,
+        cases_per_thread,
+        body_max: 1024,
     };
-    let log = vmon::evlog::EvLog::new();
-    let ctx = vmon::srv::Ctx::new(log.clone());
-    let cfg = vmon::srv::SrvCfg { workers: 4, body_max: 1024, ..Default::default() };
-    let mut running = match vmon::srv::start(api, ctx, &cfg) {
-        Ok(r) => r,
-        Err(e) => {
-            rep.inconclusive(&format!("server start: {e}"));
-            return rep;
-        }
-    };
-    let addr = running.addr;
-    let hs: Vec<_> = (0..threads)
-        .map(|t| {
-            std::thread::Builder::new()
-                .name(format!("client{t}"))
-                .spawn(move || {
-                    let mut r = Report::new("C13", "E2-live-request-ids-and-errors", RULE_LIVE);
-                    let seen = live_client(&mut r, addr, seed, t as u64, cases_per_thread);
-                    (r, seen)
-                })
-                .unwrap()
-        })
-        .collect();
-    let mut all: Vec<Seen> = vec![];
-    for h in hs {
-        let (r, seen) = h.join().expect("client thread panicked");
-        rep.merge(r);
-        all.extend(seen);
-    }
-    let _ = running.close();
-    // ---- history checks over the whole run
-    let mut logged: HashMap<u64, Vec<String>> = HashMap::new();
-    for e in log.snapshot() {
-        if e.kind == "H_RQID" {
-            logged.entry(e.uid).or_default().push(e.s);
-        }
-    }
-    rep.count("responses", all.len() as u64);
-    rep.count("handler-entries-logged", logged.values().map(|v| v.len() as u64).sum());
-    let mut ids: HashSet<&str> = HashSet::new();
-    for s in &all {
-        if let Some(id) = &s.id {
-            if !ids.insert(id.as_str()) {
-                rep.violate("C13:request-id-repeated", json!({"id": id, "uid": s.uid, "what": s.what, "seed": seed}));
+    // ids of the whole run, across rounds (= across server instances)
+    let mut ids_uuid: HashSet<u128> = HashSet::new();
+    let mut ids_other: HashSet<String> = HashSet::new();
+    let mut rep = crate::live::rounds(&plan, build_api, live_client, &mut |rep, log, all: Vec<Seen>| {
+        let mut logged: HashMap<u64, Vec<String>> = HashMap::new();
+        for e in log.snapshot() {
+            if e.kind == "H_RQID" {
+                logged.entry(e.uid).or_default().push(e.s);
             }
         }
-        if s.handler_expected {
-            match (logged.get(&s.uid), &s.id) {
-                (Some(l), Some(id)) if l.len() == 1 && &l[0] == id => rep.count("handler-id-equals-header", 1),
-                (Some(l), Some(id)) => rep.violate(
-                    format!("C13:handler-request-id-differs-from-header:{}", s.what),
-                    json!({"uid": s.uid, "handler_saw": l, "header": id, "seed": seed}),
-                ),
-                (None, _) => rep.inconclusive("handler expected to run but logged nothing"),
-                (_, None) => {}
+        rep.count("responses", all.len() as u64);
+        rep.count("handler-entries-logged", logged.values().map(|v| v.len() as u64).sum());
+        for s in &all {
+            if let Some(id) = &s.id {
+                let fresh = match id_key(id) {
+                    Ok(k) => ids_uuid.insert(k),
+                    Err(o) => {
+                        rep.count("request-ids-not-uuid-shaped", 1);
+                        ids_other.insert(o)
+                    }
+                };
+                if !fresh {
+                    rep.violate("C13:request-id-repeated", json!({"id": id, "uid": s.uid, "what": s.what, "seed": seed}));
+                }
+            }
+            if s.handler_expected {
+                match (logged.get(&s.uid), &s.id) {
+                    (Some(l), Some(id)) if l.len() == 1 && &l[0] == id => rep.count("handler-id-equals-header", 1),
+                    (Some(l), Some(id)) => rep.violate(
+                        format!("C13:handler-request-id-differs-from-header:{}", s.what),
+                        json!({"uid": s.uid, "handler_saw": l, "header": id, "seed": seed}),
+                    ),
+                    (None, _) => rep.inconclusive("handler expected to run but logged nothing"),
+                    (_, None) => {}
+                }
             }
         }
-    }
-    rep.count("distinct-request-ids", ids.len() as u64);
+    });
+    rep.count("distinct-request-ids", (ids_uuid.len() + ids_other.len()) as u64);
     rep
 }
